@@ -23,15 +23,15 @@ fn loops(input: &[u8], po: &PO, src: usize, style: Style) -> Option<Vec<Item>> {
         0 => {
             let s = std::str::from_utf8(input).ok()?;
             let mut p = Parser::from_str_custom(s, o);
-            drive(&mut p, style, cap, true)
+            drive(&mut p, style, cap, false)
         }
         1 => {
             let mut p = Parser::from_slice_custom(input, o);
-            drive(&mut p, style, cap, true)
+            drive(&mut p, style, cap, false)
         }
         _ => {
             let mut p = Parser::from_reader_custom(ChunkReader { data: input, pos: 0, chunk: 1 }, o);
-            drive(&mut p, style, cap, true)
+            drive(&mut p, style, cap, false)
         }
     })
 }
@@ -268,7 +268,7 @@ pub fn run(ctx: &Ctx) -> Report {
     if ctx.want("loops-alphabet") {
         let k = if thorough { 5 } else { 4 };
         let n = count_upto(SIGMA.len() as u64, k);
-        let sub = Sub::new("loops-alphabet", "every string of length <= k over the token alphabet x the 15 corner option sets x {str, slice, 1-byte reader}: the next_value loop, the next_datum loop and datum_iter yield the same items — equal values, the same error text and location at the same item, the end of input at the same point; non-trivial = more than one item", &format!("k = {}: {} strings x {}", k, n, npo));
+        let sub = Sub::new("loops-alphabet", "every string of length <= k over the token alphabet x the 15 corner option sets x {str, slice, 1-byte reader}: the next_value loop, the next_datum loop and datum_iter, continuing after errors, yield the same items — equal values, the same error text and location at the same item, the end of input at the same point; non-trivial = more than one item", &format!("k = {}: {} strings x {}", k, n, npo));
         let accs = par_ranks(n * npo, |rank, acc| {
             let mut buf = Vec::new();
             let mut idx = Vec::new();
@@ -323,6 +323,27 @@ pub fn run(ctx: &Ctx) -> Report {
             };
             acc.sample(rank, || format!("{:?}", trunc(&show_bytes(input), 60)));
             check_loops(acc, "loops-streams", rank, input, &po);
+        });
+        rep.absorb(sub, accs);
+    }
+    if ctx.want("loops-long") {
+        // long streams with many failing items: both APIs must keep agreeing item for item, which
+        // exposes state (the nesting budget) that only one of the two code paths forgets to restore
+        let mut inputs: Vec<Vec<u8>> = Vec::new();
+        for unit in ["') ", "`] ", ",@) ", "(a . ) ", "#(] ", "'#! ", "(1 . 2 3) ", "\"\\q\" ", "#\\spac ", "'", "(", "#("] {
+            for n in [130usize, 200, 300] {
+                let mut t = unit.repeat(n);
+                t.push_str(" a (b) 'c ");
+                t.push_str(&format!("{}x{}", "(".repeat(100), ")".repeat(100)));
+                inputs.push(t.into_bytes());
+            }
+        }
+        let opts = [PO::default_(), PO::elisp()];
+        let sub = Sub::new("loops-long", "streams of 130 / 200 / 300 failing items of 12 kinds (failed quotations, mismatched closers, bad dotted tails, bad escapes, truncated names, unclosed openers) followed by well-formed items incl. a 100-deep datum: value loop, datum loop and datum_iter agree item for item over the whole stream, from all three sources", &format!("{} streams x 2 option sets", inputs.len()));
+        let accs = par_ranks(inputs.len() as u64 * 2, |rank, acc| {
+            let t = &inputs[(rank / 2) as usize];
+            acc.sample(rank, || format!("{:?}", trunc(&show_bytes(t), 40)));
+            check_loops(acc, "loops-long", rank, t, &opts[(rank % 2) as usize]);
         });
         rep.absorb(sub, accs);
     }
